@@ -940,6 +940,7 @@ def register(M):
         reg(t, 'Iterator', 'chain', lambda m, a, k: mk_iter('chain', (into_iter_value(m, a[0]), into_iter_value(m, a[1]))))
         reg(t, 'Iterator', 'zip', lambda m, a, k: mk_iter('zip', (into_iter_value(m, a[0]), into_iter_value(m, a[1]))))
         reg(t, 'Iterator', 'by_ref', lambda m, a, k: a[0])
+        reg(t, 'Iterator', 'flat_map', adaptor('flat_map'))
         # scan(init, f): the running state lives in a cell handed to the closure as `&mut St`
         reg(t, 'Iterator', 'scan', lambda m, a, k: mk_iter('scan', into_iter_value(m, a[0]), a[2], Cell(a[1])))
 
